@@ -42,6 +42,11 @@ Before the fix the statement was FALSE (`reset_is_fresh_refuted_before_fix`, DES
 `f25_history_now_agrees` replays the former counter-example on the repaired model.  At the C level
 `chewing_Reset` additionally has to drop the four iterator slots (second fix; `ctx_reset_eq_fresh`,
 `ctx_reset_is_fresh` over ALL call lists incl. slot reads without Enumerate, `ctx_reset_refuted_before_fix`).
+Bisimulation form: `Bisim`, `bisim_runs` (bisimilar editors are indistinguishable by any history of
+operations and queries), `reset_is_fresh_bisim`; `query_meta_blind` (no getter reads the clock or the
+flush level), `simple_ops_meta_blind` (the seven operations that neither read nor write them), and the
+reduction `resetFreshModuloClock_of_relation`: the clock-and-flush-insensitive statement follows from the
+step property of ONE relation — that step property through every arm of `processKey` is the open obligation.
 NOT proved: that the estimator clock and the pending flush level are unobservable (a new C context
 restarts the clock from the newest stored time): the theorems take the clock as a constructor argument
 and carry the flush level explicitly; the C harness compares reset contexts with new contexts whose clock
@@ -371,6 +376,169 @@ theorem fresh_by_constructors (cfg : Config D L) (l0 : L) :
   simp only [Editor.setOptions, Editor.setLayout, Editor.leaveIfEmpty, Editor.fresh]
   have : (St.entering == St.enteringSyllable) = false := by decide
   by_cases h : (LangMode.chinese != cfg.options.languageMode) = true <;> simp [h, this]
+
+/-! ### bisimulation form, and what is known about the clock and the pending flush level -/
+
+/-- what the client sees of a run: every return value and every answer, or the panic -/
+def seen (r : Outcome (Editor D L × List Ev)) : Outcome (List Ev) := r.map (·.2)
+
+/-- `R` is a bisimulation for the calls of the editor (operations AND queries): related editors answer
+    every call alike — same value and related successors, or the same panic -/
+def Bisim (R : Editor D L → Editor D L → Prop) : Prop :=
+  ∀ e₁ e₂ c, R e₁ e₂ →
+    match e₁.stepQ env c, e₂.stepQ env c with
+    | .ok (e₁', v₁), .ok (e₂', v₂) => R e₁' e₂' ∧ v₁ = v₂
+    | .panic p, .panic q => p = q
+    | .outOfFuel, .outOfFuel => True
+    | _, _ => False
+
+/-- bisimilar editors are indistinguishable by any history -/
+theorem bisim_runs (R : Editor D L → Editor D L → Prop) (hR : Bisim env R) :
+    ∀ (l : List (OpQ L)) (e₁ e₂ : Editor D L), R e₁ e₂ → seen (e₁.runQ env l) = seen (e₂.runQ env l) := by
+  intro l
+  induction l with
+  | nil => intro e₁ e₂ _; rfl
+  | cons c cs ih =>
+    intro e₁ e₂ h
+    have hs := hR e₁ e₂ c h
+    simp only [Editor.runQ, seen]
+    cases h₁ : e₁.stepQ env c with
+    | ok x₁ =>
+      obtain ⟨a₁, v₁⟩ := x₁
+      cases h₂ : e₂.stepQ env c with
+      | ok x₂ =>
+        obtain ⟨a₂, v₂⟩ := x₂
+        rw [h₁, h₂] at hs
+        obtain ⟨hr, hv⟩ := hs
+        have := ih a₁ a₂ hr
+        simp only [seen] at this
+        subst hv
+        show Outcome.map (·.2) ((a₁.runQ env cs).map fun r => (r.1, v₁ :: r.2))
+          = Outcome.map (·.2) ((a₂.runQ env cs).map fun r => (r.1, v₁ :: r.2))
+        rw [Outcome.map_map, Outcome.map_map]
+        calc _ = ((a₁.runQ env cs).map (·.2)).map (v₁ :: ·) := (Outcome.map_map _ _ _).symm
+          _ = ((a₂.runQ env cs).map (·.2)).map (v₁ :: ·) := by rw [this]
+          _ = _ := Outcome.map_map _ _ _
+      | panic q => rw [h₁, h₂] at hs; exact hs.elim
+      | outOfFuel => rw [h₁, h₂] at hs; exact hs.elim
+    | panic p =>
+      cases h₂ : e₂.stepQ env c with
+      | ok x₂ => rw [h₁, h₂] at hs; exact hs.elim
+      | panic q => rw [h₁, h₂] at hs; simp only at hs; subst hs; rfl
+      | outOfFuel => rw [h₁, h₂] at hs; exact hs.elim
+    | outOfFuel =>
+      cases h₂ : e₂.stepQ env c with
+      | ok x₂ => rw [h₁, h₂] at hs; exact hs.elim
+      | panic q => rw [h₁, h₂] at hs; exact hs.elim
+      | outOfFuel => rfl
+
+/-- equality is a bisimulation (the model is a function of the editor value) -/
+theorem bisim_eq : Bisim env (fun e₁ e₂ : Editor D L => e₁ = e₂) := by
+  intro e₁ e₂ c h
+  subst h
+  cases e₁.stepQ env c with
+  | ok x => exact ⟨rfl, rfl⟩
+  | panic p => rfl
+  | outOfFuel => trivial
+
+/-- **reset_is_fresh, bisimulation form**: whatever bisimulation `R` relates the reset editor to a candidate
+    fresh editor `f`, no history tells them apart.  With `R := Eq` and `f := fresh (config e)` (up to the
+    flush level) this is `reset_is_fresh`; a coarser `R` that ignores the clock and the flush level would
+    give the C-level statement (see `ResetFreshModuloClock`, not proved) -/
+theorem reset_is_fresh_bisim (R : Editor D L → Editor D L → Prop) (hR : Bisim env R) (e f : Editor D L)
+    (h : R (e.clear env) f) (l : List (OpQ L)) : seen ((e.clear env).runQ env l) = seen (f.runQ env l) :=
+  bisim_runs env R hR l _ _ h
+
+/-- the two fields no getter reads: the estimator clock and the pending flush level -/
+def setMeta (e : Editor D L) (t k : Nat) : Editor D L := { e with shared := { e.shared with time := t, dirty := k } }
+
+/-- **no getter can see the clock or the flush level** -/
+theorem query_meta_blind (e : Editor D L) (t k : Nat) (q : Query) : (setMeta e t k).query env q = e.query env q := by
+  cases q <;> rfl
+
+/-- the operations that neither read nor write them commute with changing them -/
+theorem simple_ops_meta_blind (e : Editor D L) (t k : Nat) (o : Op L)
+    (ho : match o with
+      | .clear | .ack | .clearSyl | .setOptions _ | .setLayout _ | .setEngine _ | .cancelSelecting => True
+      | _ => False) :
+    (setMeta e t k).applyR env o = (e.applyR env o).map fun r => (setMeta r.1 t k, r.2) := by
+  cases o <;> simp only at ho
+  case clear => rfl
+  case ack => rfl
+  case setEngine => rfl
+  case cancelSelecting =>
+    obtain ⟨sh, st⟩ := e
+    cases st <;> rfl
+  case clearSyl =>
+    simp only [Editor.applyR, Editor.clearSyllableEditor, Editor.leaveIfEmpty, setMeta, Outcome.map]
+    split <;> rename_i h <;> simp only [h, ↓reduceIte] <;> rfl
+  case setLayout =>
+    simp only [Editor.applyR, Editor.setLayout, Editor.leaveIfEmpty, setMeta, Outcome.map]
+    split <;> rename_i h <;> simp only [h, ↓reduceIte] <;> rfl
+  case setOptions o =>
+    simp only [Editor.applyR, Editor.setOptions, Editor.leaveIfEmpty, setMeta, Outcome.map]
+    by_cases h1 : (e.shared.options.languageMode != o.languageMode) = true
+    · simp only [h1, ↓reduceIte]
+      by_cases h2 : (env.sylIsEmpty (env.clearSyl e.shared.syl) && e.state == St.enteringSyllable) = true <;>
+        simp only [h2, ↓reduceIte] <;> (try rfl)
+    · simp only [h1, Bool.false_eq_true, ↓reduceIte]
+      by_cases h2 : (env.sylIsEmpty e.shared.syl && e.state == St.enteringSyllable) = true <;>
+        simp only [h2, Bool.false_eq_true, ↓reduceIte] <;> (try rfl)
+
+/-- the statement a C client cares about — a reset context against a NEW context, whose clock restarts from
+    the newest stored time and whose flush level is 0 — for environments in which timestamps and flushing
+    are unobservable.  NOT proved: it needs the frame property "the clock reaches nothing but the time
+    argument of `estimate` / `updatePhrase`, the flush level nothing but `reopenFlush`" through every arm
+    of `processKey`; covered by the paired executions of the harness (C API: the new context's clock differs;
+    Rust API: flush level masked until the first key). -/
+def ResetFreshModuloClock : Prop :=
+  ∀ (R : Editor D L → Editor D L → Prop), (∀ e t k, R e (setMeta e t k)) → (∀ e₁ e₂ e₃, R e₁ e₂ → R e₂ e₃ → R e₁ e₃) →
+    (∀ e₁ e₂, R e₁ e₂ → ∀ q, e₁.query env q = e₂.query env q) →
+    (∀ e₁ e₂ o, R e₁ e₂ → match e₁.applyR env o, e₂.applyR env o with
+      | .ok (a₁, v₁), .ok (a₂, v₂) => R a₁ a₂ ∧ v₁ = v₂ | .panic p, .panic q => p = q | .outOfFuel, .outOfFuel => True | _, _ => False) →
+    ∀ (e : Editor D L) (t : Nat) (l : List (OpQ L)),
+      seen ((e.clear env).runQ env l) = seen ((Editor.fresh { e.config env with time := t }).runQ env l)
+
+/-- … which DOES follow once such a relation is exhibited (so the open obligation is exactly the step
+    property of the relation "equal up to clock, flush level and unobservable dictionary details") -/
+theorem resetFreshModuloClock_of_relation : ResetFreshModuloClock env := by
+  intro R hmeta htrans hq hstep e t l
+  have hb : Bisim env R := by
+    intro e₁ e₂ c h
+    cases c with
+    | query q => exact ⟨h, by rw [hq e₁ e₂ h q]⟩
+    | op o =>
+      have := hstep e₁ e₂ o h
+      simp only [Editor.stepQ]
+      cases h₁ : e₁.applyR env o with
+      | ok x₁ =>
+        obtain ⟨a₁, v₁⟩ := x₁
+        cases h₂ : e₂.applyR env o with
+        | ok x₂ => obtain ⟨a₂, v₂⟩ := x₂; rw [h₁, h₂] at this; exact ⟨this.1, by rw [this.2]⟩
+        | panic q => rw [h₁, h₂] at this; exact this.elim
+        | outOfFuel => rw [h₁, h₂] at this; exact this.elim
+      | panic p =>
+        cases h₂ : e₂.applyR env o with
+        | ok x₂ => rw [h₁, h₂] at this; exact this.elim
+        | panic q => rw [h₁, h₂] at this; exact this
+        | outOfFuel => rw [h₁, h₂] at this; exact this.elim
+      | outOfFuel =>
+        cases h₂ : e₂.applyR env o with
+        | ok x₂ => rw [h₁, h₂] at this; exact this.elim
+        | panic q => rw [h₁, h₂] at this; exact this.elim
+        | outOfFuel => trivial
+  refine reset_is_fresh_bisim env R hb e _ ?_ l
+  rw [clear_eq_fresh]
+  have h1 := hmeta (Editor.fresh { e.config env with time := t }) (e.shared.time) (e.shared.dirty)
+  -- `fresh cfg` with its clock and flush level set IS `(fresh (config e)).withDirty dirty`
+  have h2 : setMeta (Editor.fresh { e.config env with time := t }) e.shared.time e.shared.dirty
+      = (Editor.fresh (e.config env)).withDirty e.shared.dirty := rfl
+  rw [h2] at h1
+  -- symmetry is not assumed: go through the relation from the other side
+  have h3 := hmeta ((Editor.fresh (e.config env)).withDirty e.shared.dirty) t 0
+  have h4 : setMeta ((Editor.fresh (e.config env)).withDirty e.shared.dirty) t 0 = Editor.fresh { e.config env with time := t } := rfl
+  rw [h4] at h3
+  exact h3
 
 /-! ### the C context: `chewing_Reset` -/
 
